@@ -129,48 +129,3 @@ fn k_sync_zero_after_rewind_or_release() {
   kani::assume(j < n2 as usize);
   assert!(unsafe { a.get_bytes(z.offset(), z.capacity()) }[j] == 0);
 }
-
-fn alloc_release_reuse(fl: Freelist) {
-  let a = Options::new().with_capacity(64).with_freelist(fl).alloc::<Arena>().unwrap();
-  a.set_minimum_segment_size(1);
-  let (n1, n3): (u32, u32) = (kani::any(), kani::any());
-  kani::assume(n1 >= 16 && n1 <= 32 && n3 <= 20);
-  let Ok(mut x) = a.alloc_bytes(n1) else { return; };
-  unsafe { core::ptr::write_bytes(x.as_mut_ptr(), 0xAA, n1 as usize) };
-  let Ok(mut y) = a.alloc_bytes(8) else { return; };
-  unsafe { core::ptr::write_bytes(y.as_mut_ptr(), 0xBB, 8) };
-  let (yo, yc) = (y.offset(), y.capacity());
-  assert!(x.offset() + x.capacity() <= yo || yo + yc <= x.offset());
-  // exhaust fresh space: the next request can only be served from the free list
-  let rem = a.remaining() as u32;
-  if rem > 0 { let Ok(mut f) = a.alloc_bytes(rem) else { return; }; unsafe { f.detach(); } }
-  drop(x);                                   // released below the top: goes to the free list (or is discarded)
-  let before = (a.allocated(), a.discarded());
-  match a.alloc_bytes(n3) {
-    Ok(z) => {
-      assert!(z.capacity() == n3 as usize);
-      if n3 > 0 {
-        assert!(!matches!(fl, Freelist::None));
-        assert!(z.offset() >= a.data_offset() && z.offset() + z.capacity() <= a.allocated());
-        assert!(z.offset() + z.capacity() <= yo || yo + yc <= z.offset());
-        let bytes = unsafe { a.get_bytes(z.offset(), z.capacity()) };
-        let i: usize = kani::any();
-        kani::assume(i < bytes.len());
-        assert!(bytes[i] == 0);
-      }
-    }
-    Err(_) => { assert!((a.allocated(), a.discarded()) == before); }
-  }
-  // y is untouched
-  let j: usize = kani::any();
-  kani::assume(j < yc);
-  assert!(unsafe { a.get_bytes(yo, yc) }[j] == 0xBB);
-}
-/// bounded(capacity 64: a block of 16..32 bytes, a live 8-byte neighbour, fresh space exhausted, the block released, then a
-/// request of 0..20 bytes that can only come from the free list): C01/C08 on the real sync arena (one thread)
-#[kani::proof]
-#[kani::unwind(5)]
-fn k_sync_alloc_release_reuse_pessimistic() { alloc_release_reuse(Freelist::Pessimistic) }
-#[kani::proof]
-#[kani::unwind(5)]
-fn k_sync_alloc_release_reuse_optimistic() { alloc_release_reuse(Freelist::Optimistic) }
